@@ -323,7 +323,15 @@ class Encoder:
             if not started:
                 continue
             if e["k"] == "call" and e["callee"] and e["callee"].rsplit("::", 1)[-1] in ("extend_from_slice", "append"):
-                break  # a group flush: what follows re-initialises the group buffer
+                src = e["args"][1] if len(e["args"]) > 1 else None
+                whole_vec = e["callee"].endswith("::append") or (src is not None and any(
+                    x[0] == "call" and x[1] and x[1].endswith("as std::ops::Deref>::deref") and "Vec" in x[1] for x in walk(src)) and not any(
+                    x[0] == "call" and x[1] and "ops::Index" in x[1] for x in walk(src)))
+                if whole_vec:
+                    break  # a group flush: what follows re-initialises the group buffer
+                # token bytes assembled elsewhere (an array, an integer's bytes) and appended in one go
+                self.emission_unknown = "token bytes appended with extend_from_slice from %s" % fmt(src)[:60]
+                continue
             if e["k"] == "call" and e["callee"] and e["callee"].startswith("std::vec::Vec") and e["callee"].endswith("::push"):
                 slots.append([("push", len(slots)), e["args"][1]])
             elif e["k"] == "call" and e["callee"] and e["callee"].rsplit("::", 1)[-1] in ("copy_from_slice", "clone_from_slice", "fill", "swap", "rotate_left", "rotate_right"):
